@@ -28,6 +28,11 @@ RULE = ("behaviours of RelayGen (environment steps: local/proxy application dial
         "bubble; non-trivial = contains a frame delivery, an application close or a tunnel reset")
 
 
+# short TLC jobs: C1 only and few GC threads (JVM start-up dominates them); long ones: fewer GC threads than cores
+JVM_SHORT = {"JAVA_TOOL_OPTIONS": "-Xss64m -XX:TieredStopAtLevel=1 -XX:ParallelGCThreads=2"}
+JVM_LONG = {"JAVA_TOOL_OPTIONS": "-Xss64m -XX:ParallelGCThreads=4"}
+
+
 def q(s):
     return ",".join('"%s"' % x for x in s.split(",") if x)
 
@@ -150,7 +155,8 @@ def tlc_scenarios(ctx):
             json.dump([[_ev(tok) for tok in sc[3].split()] for sc in scs], fh)
         cfg = C(nconn=2, up=3, down=3, single=single, maxsess=3, sto=sto, feat="fail,dialfail,time,reset,async")
         cfg.pop("INV")
-        r = lib.run_tlc(ctx, "RelayScript", "RelayScript.cfg", cfg, env={"VERIF_SCRIPT": sf}, workers=1, tag="script_%s_%d" % (single, sto), timeout=900)
+        r = lib.run_tlc(ctx, "RelayScript", "RelayScript.cfg", cfg, env=dict(JVM_SHORT, VERIF_SCRIPT=sf), workers=1,
+                        tag="script_%s_%d" % (single, sto), timeout=900)
         lib.require_ok(r, "RelayScript")
         got = {b["script"]: b for b in r.behaviours}
         for n, sc in enumerate(scs):
@@ -174,7 +180,9 @@ def confluence(ctx, quick):
                     ("2c_single", dict(nconn=2, single=True, feat="fail,time,async", depth=5 if quick else 7))]:
         depth = kw.pop("depth")
         cfg = dict(C(**kw), DEPTH=depth, CANON="FALSE")
-        r = lib.run_tlc(ctx, "RelayGen", "RelayGen.cfg", cfg, tag="confl_" + tag, workers=8, timeout=1500)
+        if quick and tag == "2c_single":
+            continue
+        r = lib.run_tlc(ctx, "RelayGen", "RelayGen.cfg", cfg, tag="confl_" + tag, workers=4, timeout=1500, env=JVM_SHORT)
         lib.require_ok(r, "RelayGen confluence " + tag)
         seen = {}
         for b in r.behaviours:
@@ -190,7 +198,7 @@ def confluence(ctx, quick):
 
 def tlc_gen(ctx, tag, cfg, sim):
     r = lib.run_tlc(ctx, "RelayGen", "RelayGen.cfg", cfg, tag="gen_" + tag, simulate=sim, depth=400 if sim else None,
-                    workers=(4 if sim else 8), timeout=1500)
+                    workers=4, timeout=1500, env=JVM_SHORT if ctx.quick() else JVM_LONG)
     lib.require_ok(r, "RelayGen " + tag)
     out = []
     for b in r.behaviours:
@@ -202,18 +210,27 @@ def tlc_gen(ctx, tag, cfg, sim):
     return out
 
 
+# the quick tier runs one negative configuration per invariant; the thorough tier all of them
+QUICK_NEG = {"prefix_reorder", "crosstalk_wrongstream", "complete_strict_refuted", "neighbour_closeonzero", "neighbour_strict_refuted",
+             "orphan_downcopy", "idle_norearm", "renew_noclosedcheck", "single_shared", "reach_firstwritefail"}
+
+
 def model_check(ctx, quick):
     """exhaustive runs + negative configurations, in a pool; returns summary dict"""
     jobs = []
-    pool = ThreadPoolExecutor(max_workers=4 if quick else 3)
+    pool = ThreadPoolExecutor(max_workers=5 if quick else 3)
     for tag, cfg, to in mc_list(quick):
         jobs.append(("mc", tag, None, pool.submit(lib.run_tlc, ctx, "Relay", "Relay_mc.cfg", cfg, tag="mc_" + tag, timeout=to,
-                                                   workers=max(4, lib.NCPU // 2))))
+                                                   workers=max(4, lib.NCPU // 2), env=JVM_LONG)))
     for tag, cfg, inv in NEGATIVES:
+        if quick and tag not in QUICK_NEG:
+            continue
         jobs.append(("neg", tag, inv, pool.submit(lib.run_tlc, ctx, "Relay", "Relay_mc.cfg", cfg, tag="neg_" + tag, timeout=600,
-                                                   workers=2, expect_violation=True)))
-    for tag, cfg in POSITIVE_DEV:
-        jobs.append(("mc", tag, None, pool.submit(lib.run_tlc, ctx, "Relay", "Relay_mc.cfg", cfg, tag="mc_" + tag, timeout=900, workers=4)))
+                                                   workers=2, expect_violation=True, env=JVM_SHORT)))
+    if not quick:
+        for tag, cfg in POSITIVE_DEV:
+            jobs.append(("mc", tag, None, pool.submit(lib.run_tlc, ctx, "Relay", "Relay_mc.cfg", cfg, tag="mc_" + tag, timeout=900, workers=4,
+                                                       env=JVM_SHORT)))
     return pool, jobs
 
 
